@@ -28,7 +28,7 @@ ASSUMPTIONS = [
     "stdin is not part of the histories (CachedStdin is documented caching)",
     "faults only at calls leaving the package (OS calls, user callbacks)",
 ]
-PROBES = ["construction-env-differs", "history-after-failure", "pristine-leg", "world-edit", "fault-in-history"]
+PROBES = ["direct-call-on-subcommand-parser", "construction-env-differs", "history-after-failure", "pristine-leg", "world-edit", "fault-in-history"]
 ANCHOR_FILES = ("_core", "_actions", "_typehints", "_common", "_link_arguments", "_completions")
 NO_SHRINK = ("parsers/*/opts", "parsers/*/opts/*", "world", "pristine")
 SHRINK_DICTS = ("world/files", "world/env")
@@ -91,6 +91,9 @@ ARGV = {
     "dd": [["--dd.u=3"], ['--dd={"u":2,"w":[1]}'], ["--dd.zz=1"], ["--dd=null"]],
     "hd": [["--hd.d.u=5", "--hd.d.w=[3.0]"], ["--hd.d.w=[1.5]"], ["--hd.d.u=6"], ["--hd.k=2"], ['--hd.d={"u": 8}'], ["--hd.d=null"], ["--hd.d.u=x"]],
     "base": [
+        ["--base=dsim.simtypes_late.LateSub"],
+        ["--base=LateSub"],
+        ["--base=LateSub", "--base.late=2"],
         ["--base=Sub1"],
         ["--base.n=3"],
         ["--base=dsim.simtypes.Sub2", "--base.k=4"],
@@ -217,6 +220,10 @@ def gen_obj(rng, feats):
 
 def gen_op(rng, pi, feats):
     c = rng.random()
+    if "sub" in feats and c < 0.05:
+        # the application calls a subcommand's parser OBJECT directly (it holds a reference to it): whatever that
+        # leaves behind must not show in later calls on the parser it belongs to
+        return {"p": pi, "kind": "args", "on": "fit", "argv": rng.choice([["--print_config"], ["--print_config", "--lr=0.3"], ["--lr=0.3"], ["--lr=x"], ["--help"], [], ["--print_config=bogus"], ["--print_config", "--lr=x"]])}
     if c < 0.45:
         op = {"p": pi, "kind": "args", "argv": gen_argv(rng, feats)}
         if rng.random() < 0.08:
@@ -302,6 +309,13 @@ def generate(rng, tier):
         pi = rng.choice(dcf_parsers)
         first = rng.choice([{"kind": "args", "argv": ["--help"]}, {"kind": "args", "argv": ["--print_config"]}, {"kind": "defaults"}, {"kind": "dump", "argv": [], "kw": {"skip_default": True}}])
         ops += [dict(first, p=pi), {"p": pi, "kind": "edit", "file": "dflt.yaml", "text": rng.choice(FILE_ALTS["dflt.yaml"])}, {"p": pi, "kind": "defaults"}, {"p": pi, "kind": "args", "argv": []}]
+    base_parsers = [i for i, p in enumerate(parsers) if "base" in p["feats"]]
+    if base_parsers and rng.random() < 0.3:
+        # help -> a call that makes a new subclass exist (imports its module) -> help again: what the first help
+        # computed (lists of known subclasses, expanded defaults) must not be what the second one shows
+        pi = rng.choice(base_parsers)
+        h = rng.choice([["--help"], ["--base.help"], ["--help"]])
+        ops += [{"p": pi, "kind": "args", "argv": h}, {"p": pi, "kind": "args", "argv": ["--base=dsim.simtypes_late.LateSub"]}, {"p": pi, "kind": "args", "argv": rng.choice([["--help"], h])}, {"p": pi, "kind": "args", "argv": ["--base=LateSub"]}]
     home_parsers = [i for i, p in enumerate(parsers) if "dcf" in p["feats"] and "dcfh" in p["feats"]]
     if home_parsers and rng.random() < 0.5:
         # HOME changes between calls (a service started under one account dropping to another, tests that patch
@@ -374,6 +388,8 @@ def _subst(spec, root):
 
 def do_op(p, op):
     k = op["kind"]
+    if op.get("on"):
+        p = p._subcommands_action._name_parser_map[op["on"]]
     if k == "args":
         return p.parse_args(list(op["argv"]), **op.get("kw", {}))
     if k == "obj":
@@ -642,6 +658,8 @@ def _run_history(sc, ctx, sim, root, golden, srv, cwd0, ns0):
             R[pi] = zoo.build(specs[pi])
             built_under[pi] = os.environ.get(CE)
         sim.begin_op(i, kind)
+        if op.get("on"):
+            sim.probe("direct-call-on-subcommand-parser")
         if hasattr(R[pi], "print_config"):
             sim.probe("print-config-pending-at-op-start")
         if dirty[pi]:
@@ -714,6 +732,9 @@ def _run_history(sc, ctx, sim, root, golden, srv, cwd0, ns0):
             sim.emit("legs", "P", cR == cP)
             if json.loads(json.dumps(cR)) != cP:
                 tag = residue_tag(pre if pre != 'parser.print_config' else None, None, None)
+                if "dsim.simtypes_late" in sys.modules and (tag == "none" or tag.startswith("ctxvar:")) and "LateSub" in json.dumps([op, cR, cP]):
+                    # the class registry of the interpreter: an earlier call imported the module that defines it
+                    tag = "module-imported-by-history:dsim.simtypes_late"
                 ctx.violation(
                     "reused-vs-pristine",
                     {"op": kind, "leg": "P", "reused": oR.brief(), "fresh": resp["val"]["brief"], "residue": tag},
